@@ -12,6 +12,7 @@ package rules
 import (
 	"fmt"
 	"go/token"
+	"go/types"
 	"sort"
 	"strings"
 
@@ -25,6 +26,7 @@ func runOverlapDir(m *model.Model, s *ob.Set) {
 	const R = "OVERLAP"
 	need := map[string]int{} // kernel name -> +1 ascending, -1 descending, 2 conflicting
 	where := map[string]string{}
+	wherePos := map[string]string{}
 	for _, fn := range m.Funcs {
 		if !m.InDecimalPkg(fn) || len(fn.Blocks) == 0 || inKernelLayer(m, fn) || fn.Signature.Recv() == nil || len(fn.Params) < 2 || !m.IsWordSlice(fn.Params[0].Type()) {
 			continue
@@ -40,7 +42,13 @@ func runOverlapDir(m *model.Model, s *ob.Set) {
 					continue
 				}
 				cal := call.Call.StaticCallee()
-				if cal == nil || !m.InDecimalPkg(cal) || !carryKernels[cal.Name()] || len(call.Call.Args) < 2 {
+				if cal == nil || !m.InDecimalPkg(cal) || !carryKernels[cal.Name()] || len(call.Call.Args) < 3 {
+					continue
+				}
+				// the shift kernels only (third parameter a shift count, not a word): they are the
+				// ones the dec layer uses in place at an offset; the element-wise kernels are kept
+				// apart from their operands by the alias guards (ALIASGUARD)
+				if bt, ok := cal.Signature.Params().At(2).Type().Underlying().(*types.Basic); !ok || bt.Kind() != types.Uint {
 					continue
 				}
 				d, sarg := call.Call.Args[0], call.Call.Args[1]
@@ -106,6 +114,7 @@ func runOverlapDir(m *model.Model, s *ob.Set) {
 					need[k] = dir
 				}
 				where[k] = m.FuncName(fn) + " (" + m.InstrPos(in) + ")"
+				wherePos[k] = m.InstrPos(in)
 			}
 		}
 	}
@@ -151,7 +160,7 @@ func runOverlapDir(m *model.Model, s *ob.Set) {
 				}
 			}
 		}
-		s.Check(ok, R, c, where[k], fmt.Sprintf("needs a %s walk (call in %s); %s", dirName[need[k]], where[k], strings.Join(got, "; ")),
+		s.Check(ok, R, c, wherePos[k], fmt.Sprintf("needs a %s walk (call in %s); %s", dirName[need[k]], where[k], strings.Join(got, "; ")),
 			fmt.Sprintf("%s is called from %s with a destination %s the source in what may be the same array, which needs a %s walk, but: %s — words of the source are overwritten before they are read", k, where[k], map[int]string{-1: "above", 1: "below"}[need[k]], dirName[need[k]], strings.Join(got, "; ")))
 	}
 	if len(ks) == 0 {
